@@ -18,8 +18,8 @@ RULE = ("tree part: every sequence (order matters) of 1..L closed intervals "
         "[a,b], a<=b, a,b in {-2..3} (L=3 quick, 4 thorough) as int, float "
         "(x0.5) and datetime (L<=3), each queried with all 21 intervals + 3 "
         "extreme ones, 13 points, and `in`; match part: all pairs of "
-        "populations (<=2 quick / <=3 thorough files from a 6-file pool) x 8 "
-        "periods x 4 max_interval values. Non-trivial = stored sequence is "
+        "populations (<=2 quick / <=3 thorough files from a 7-file pool) x 10 "
+        "periods x 7 max_interval values (0 s to 49 h). Non-trivial = stored sequence is "
         "unsorted, nested, duplicated or has a zero endpoint (tree) / at "
         "least one primary has a partner (match); cases are distinct by "
         "construction (enumeration without repetition).")
